@@ -704,7 +704,9 @@ ODD_LINES = [
     'nop', 'nop 1', 'li t0, 5', 'li t0', 'li', 'li t0, %hi(5)', 'li t0, %position(L, 4)', 'li t0, 1 + 2', 'call L', 'tail L',
     'ret', 'c.addi x8, 1', 'c.addi', 'c.addi16sp 16', 'c.addi16sp', 'c.nop', 'c.nop 1', 'c.ebreak', 'c.ebreak 1', 'c.jr x1',
     'c.jr', 'c.mv x1, x2', 'c.mv x1', 'c.swsp x8, 4', 'c.swsp', 'c.addi4spn x8, 4', 'c.lw x8', 'c.sub x8, x9', 'c.sub x8',
-    'c.beqz x8, L', 'c.beqz x8, 4', 'c.j L', 'c.j 4', 'c.j', 'c.jal -2', 'foo', 'foo bar', '( )', '(', ')', ',', ', ,', 'a,,b',
+    'c.beqz x8, L', 'c.beqz x8, 4', 'c.j L', 'c.j 4', 'c.j', 'c.jal -2', 'c.jal L', 'c.bnez x9, L', 'C.J L', 'C.BEQZ x8, L', 'c.j L + 2',
+    'c.j %offset L', 'c.j %offset(L)', 'c.beqz x8, %offset L', 'c.bnez x8, 1 + 1', 'c.bnez x8, 1+1', 'c.j 0x10', 'c.j -0b10', 'c.j (', 'c.beqz x8, (',
+    'c.beqz x8', 'c.srli x8, L', 'c.andi x8, K', 'c.srai x8, 3', 'c.j 1_0', 'c.beqz x8, x9', 'c.jal %hi(L)', 'c.j %position(L, 4)', 'foo', 'foo bar', '( )', '(', ')', ',', ', ,', 'a,,b',
     ',string x', 'csrrw x0, x1, 0x300', 'fence.i', 'ebreak', 'X = 0x10 | 0b11 ^ 3 & ~1', 'X = 2 ** 3 ** 2', 'X = -2 ** 2',
     'X = 7 // 2 % 3', 'X = 1 << 4 >> 2', 'X = (((1)))', 'X = ()', 'X = 1 / 2', 'X = 1 // 0', 'X = 08', 'X = 0_1', 'X = 1_000',
     'X = 0x', 'X = 1__0', 'X = a b', 'X = x8', 'X = - - 1', 'X = + ~ 1', 'X = 1 - -1', 'X = 2**-1',
